@@ -2,7 +2,7 @@
 (* code -> spec: records of the real formula/covariant.py:Omega (through Formula_ln.trace, tabulate.BerryCurvature and
    static.AHC) evaluated on integer data; one TLC state per record. The harness multiplies the returned floats by den,
    verifies integrality and records the integers. *)
-EXTENDS SumRule, Json, IOUtils, TLCExt
+EXTENDS SumRule, Json, IOUtils, TLCExt, FiniteSets
 VARIABLE i
 Recs == JsonDeserialize(IOEnv.TRACE_FILE).recs
 Rec == Recs[i]
@@ -25,7 +25,19 @@ NonDegClauses ==
                               Rec.grp[g][3] = SumR(Rec.grp[g][1] + 1, Rec.grp[g][2], LAMBDA n : om[n]),
      (* Rec.sea[j] = numerator of the Fermi-sea sum with j bands occupied (from static.AHC on the same data), j = 0..nb *)
      sea_equals_spec |-> \A j \in 1..Len(Rec.sea) : Rec.sea[j] = SeaNum(om, j - 1),
-     sea_full_zero |-> Len(Rec.sea) = nb + 1 => Rec.sea[nb + 1] = 0 ]
+     sea_full_zero |-> Len(Rec.sea) = nb + 1 => Rec.sea[nb + 1] = 0,
+     (* Rec.scans: [lo4, grouping code (0 none, 1 chain, 2 kramers), <<numerators at the levels lo4/4, lo4/4 + 1, ...>>] from
+        static.AHC with Efermi starting INSIDE the bands; the last level is above all bands *)
+     scan_above_all_zero |-> \A q \in 1..Len(Rec.scans) :
+                                LET sc == Rec.scans[q]  nl == Len(sc[3]) IN
+                                nl > 0 /\ sc[1] + 4 * (nl - 1) > 4 * E[nb] /\ sc[3][nl] = 0,
+     scan_levels_outside_groups |-> \A q \in 1..Len(Rec.scans) :
+                                LET sc == Rec.scans[q]
+                                    grouping == IF sc[2] = 1 THEN "chain" ELSE IF sc[2] = 2 THEN "kramers" ELSE "none" IN
+                                \A j \in 1..Len(sc[3]) :
+                                   LET l4 == sc[1] + 4 * (j - 1) IN
+                                   LevelInsideGroup(E, l4, grouping) \/
+                                   sc[3][j] = SeaNum(om, Cardinality({n \in 1..nb : 4 * E[n] < l4})) ]
 DegClauses ==
    LET E == AsSeq(Rec.E)  Vx == Mat(Rec.Vx)  Vy == Mat(Rec.Vy)  nb == Len(Rec.E)  ng == Len(Rec.mult)
        Blk(g) == (Rec.mult[g][1] + 1)..Rec.mult[g][2]
